@@ -43,6 +43,13 @@ fn show_bt(m: &KmerMinHashBTree) -> String {
 }
 
 // twin tables: the same op is applied to a KmerMinHash and a KmerMinHashBTree; both observations are printed
+fn opt_u64(r: Result<u64, sourmash::Error>) -> String {
+    match r {
+        Ok(n) => n.to_string(),
+        Err(_) => "err".to_string(),
+    }
+}
+
 fn run_twin() {
     let stdin = io::stdin();
     let stdout = io::stdout();
@@ -66,11 +73,39 @@ fn run_twin() {
             writeln!(out, "#").unwrap();
             continue;
         }
-        let n: Vec<u64> = w[1..].iter().filter_map(|x| x.parse::<u64>().ok()).collect();
-        if n.len() != w.len() - 1 {
-            writeln!(out, "bad-op").unwrap();
-            continue;
-        }
+        // "addmanyab H h:a h:a ..." carries pairs; every other op carries naturals only
+        let mut pairs: Vec<(u64, u64)> = vec![];
+        let n: Vec<u64> = if w[0] == "addmanyab" {
+            let mut okp = w.len() >= 2;
+            for t in w.iter().skip(2) {
+                let p: Vec<&str> = t.split(':').collect();
+                if p.len() != 2 {
+                    okp = false;
+                    break;
+                }
+                match (p[0].parse::<u64>(), p[1].parse::<u64>()) {
+                    (Ok(x), Ok(y)) => pairs.push((x, y)),
+                    _ => {
+                        okp = false;
+                        break;
+                    }
+                }
+            }
+            match (okp, w.get(1).and_then(|x| x.parse::<u64>().ok())) {
+                (true, Some(h)) => vec![h],
+                _ => {
+                    writeln!(out, "bad-op").unwrap();
+                    continue;
+                }
+            }
+        } else {
+            let n: Vec<u64> = w[1..].iter().filter_map(|x| x.parse::<u64>().ok()).collect();
+            if n.len() != w.len() - 1 {
+                writeln!(out, "bad-op").unwrap();
+                continue;
+            }
+            n
+        };
         let res: String = (|| -> Option<String> {
             let h = *n.first()? as usize;
             if h >= 16 {
@@ -86,10 +121,16 @@ fn run_twin() {
                     b[h] = Some(KmerMinHashBTree::new(n[2], n[4] as u32, HashFunctions::Murmur64Dna, n[5], n[3] != 0, n[1] as u32));
                 }
                 "add" => {
+                    if n.len() != 2 {
+                        return None;
+                    }
                     v[h].as_mut()?.add_hash(n[1]);
                     b[h].as_mut()?.add_hash(n[1]);
                 }
                 "addab" => {
+                    if n.len() != 3 {
+                        return None;
+                    }
                     v[h].as_mut()?.add_hash_with_abundance(n[1], n[2]);
                     b[h].as_mut()?.add_hash_with_abundance(n[1], n[2]);
                 }
@@ -97,16 +138,27 @@ fn run_twin() {
                     v[h].as_mut()?.add_many(&n[1..]).ok()?;
                     b[h].as_mut()?.add_many(&n[1..]).ok()?;
                 }
+                "addmanyab" => {
+                    v[h].as_mut()?.add_many_with_abund(&pairs).ok()?;
+                    b[h].as_mut()?.add_many_with_abund(&pairs).ok()?;
+                }
                 "rm" => {
                     v[h].as_mut()?.remove_many(n[1..].iter().copied()).ok()?;
                     b[h].as_mut()?.remove_many(n[1..].iter().copied()).ok()?;
                 }
                 "clear" => {
+                    if n.len() != 1 {
+                        return None;
+                    }
                     v[h].as_mut()?.clear();
                     b[h].as_mut()?.clear();
                 }
                 "merge" => {
+                    if n.len() != 2 {
+                        return None;
+                    }
                     let g = n[1] as usize;
+                    v[h].as_ref()?;
                     let ov = v.get(g)?.as_ref()?.clone();
                     let ob = b.get(g)?.as_ref()?.clone();
                     let r1 = v[h].as_mut()?.merge(&ov);
@@ -116,31 +168,96 @@ fn run_twin() {
                     }
                 }
                 "addfrom" => {
+                    if n.len() != 2 {
+                        return None;
+                    }
                     let g = n[1] as usize;
+                    v[h].as_ref()?;
                     let ov = v.get(g)?.as_ref()?.clone();
                     let ob = b.get(g)?.as_ref()?.clone();
                     v[h].as_mut()?.add_from(&ov).ok()?;
                     b[h].as_mut()?.add_from(&ob).ok()?;
                 }
-                "md5" => {}
-                // conv H : replace the vec twin by the conversion of the btree twin and vice versa (checks From impls)
+                "md5" => {
+                    if n.len() != 1 {
+                        return None;
+                    }
+                }
+                // tovec / tobt H : show the conversion next to the twin of the target type; nothing is replaced
                 "tovec" => {
+                    if n.len() != 1 {
+                        return None;
+                    }
                     let c: KmerMinHash = b[h].as_ref()?.into();
                     return Some(format!("{} | {}", show_vec(v[h].as_ref()?), show_vec(&c)));
                 }
                 "tobt" => {
+                    if n.len() != 1 {
+                        return None;
+                    }
+                    b[h].as_ref()?;
                     let c: KmerMinHashBTree = v[h].as_ref()?.clone().into();
                     return Some(format!("{} | {}", show_bt(&c), show_bt(b[h].as_ref()?)));
                 }
+                // convvec / convbt H : REPLACE one twin by the conversion of the other
+                "convvec" => {
+                    if n.len() != 1 {
+                        return None;
+                    }
+                    let c: KmerMinHash = b[h].as_ref()?.into();
+                    v[h] = Some(c);
+                }
+                "convbt" => {
+                    if n.len() != 1 {
+                        return None;
+                    }
+                    let c: KmerMinHashBTree = v[h].as_ref()?.clone().into();
+                    b[h] = Some(c);
+                }
+                // json H : both twins through serde_json and back
+                "json" => {
+                    if n.len() != 1 {
+                        return None;
+                    }
+                    let sv = serde_json::to_string(v[h].as_ref()?).ok()?;
+                    let sb = serde_json::to_string(b[h].as_ref()?).ok()?;
+                    let nv: KmerMinHash = serde_json::from_str(&sv).ok()?;
+                    let nb: KmerMinHashBTree = serde_json::from_str(&sb).ok()?;
+                    v[h] = Some(nv);
+                    b[h] = Some(nb);
+                }
                 "cc" => {
+                    if n.len() != 3 {
+                        return None;
+                    }
                     let g = n[1] as usize;
                     let ds = n[2] != 0;
                     let r1 = v[h].as_ref()?.count_common(v.get(g)?.as_ref()?, ds);
                     let r2 = b[h].as_ref()?.count_common(b.get(g)?.as_ref()?, ds);
-                    return Some(format!("cc {:?} | cc {:?}", r1.ok(), r2.ok()));
+                    return Some(format!("cc {} | cc {}", opt_u64(r1), opt_u64(r2)));
+                }
+                "isz" => {
+                    if n.len() != 2 {
+                        return None;
+                    }
+                    let g = n[1] as usize;
+                    let r1 = v[h].as_ref()?.intersection_size(v.get(g)?.as_ref()?);
+                    let r2 = b[h].as_ref()?.intersection_size(b.get(g)?.as_ref()?);
+                    let s1 = match r1 {
+                        Ok((c, u)) => format!("isz {} {}", c, u),
+                        Err(_) => "isz err".to_string(),
+                    };
+                    let s2 = match r2 {
+                        Ok((c, u)) => format!("isz {} {}", c, u),
+                        Err(_) => "isz err".to_string(),
+                    };
+                    return Some(format!("{} | {}", s1, s2));
                 }
                 "down" => {
-                    // down R H scaled
+                    // down R G scaled
+                    if n.len() != 3 {
+                        return None;
+                    }
                     let g = n[1] as usize;
                     let r1 = v.get(g)?.as_ref()?.clone().downsample_scaled(n[2]);
                     let r2 = b.get(g)?.as_ref()?.clone().downsample_scaled(n[2]);
